@@ -44,15 +44,20 @@ def _run(cmd, log, **kw):
         return subprocess.run(cmd, stdout=lf, stderr=subprocess.STDOUT, **kw).returncode
 
 def _sweep(keep):
-    """Remove stale scratch builds (all but `keep` and the newest other one)."""
+    """Remove stale scratch builds: keep `keep`, everything used in the last 2 hours, and at most 40 builds."""
     try:
         ents = [os.path.join(SCRATCH_ROOT, e) for e in os.listdir(SCRATCH_ROOT) if e.startswith("b-")]
     except FileNotFoundError:
         return
     ents = [e for e in ents if os.path.basename(e) != "b-" + keep]
     ents.sort(key=lambda p: os.path.getmtime(p), reverse=True)
-    for e in ents[1:]:
-        shutil.rmtree(e, ignore_errors=True)
+    now = time.time()
+    for k, e in enumerate(ents):
+        try:
+            if k >= 40 or now - os.path.getmtime(e) > 7200:
+                shutil.rmtree(e, ignore_errors=True)
+        except OSError:
+            pass
 
 def ensure_build(apps=True, quiet=False):
     """Returns (builddir, hash). Raises RuntimeError with the log path when the tree does not build."""
